@@ -271,9 +271,13 @@ def aliases(m: Model, cell: int) -> List[Tuple[int, str]]:
     return [(a, t) for a, t in out if m.canon(a) == cell]
 
 
-def op_probes(m: Model, addr: int, nbytes: int, all_aliases: bool = True) -> List[Tuple[int, str]]:
+STATED_ALIASES = ("alias:wrap24", "alias:mirror")  # the canonical forms the property statement names
+
+
+def op_probes(m: Model, addr: int, nbytes: int, alias_level: int = 2) -> List[Tuple[int, str]]:
     """Raw probe addresses (8-bit loads) tagged by their relation to the access (tags feed fingerprints only).
-    all_aliases=False keeps only the 2^24-wrap alias (used by the plain/edge history profiles)."""
+    alias_level 0: only the 2^24-wrap alias (plain/edge profiles); 1: + mirror-window aliases (alias profile);
+    2: + the implied modulo-1-MiB (Rust) / modulo-256 (Python) aliases of 0x100100..0xFFFFFF (mixed profile)."""
     cells = m.cells(addr, nbytes)
     out: List[Tuple[int, str]] = []
     seen = set()
@@ -293,7 +297,7 @@ def op_probes(m: Model, addr: int, nbytes: int, all_aliases: bool = True) -> Lis
         add((addr + i) & 0xFFFFFFFF, "alias:self")  # the access's own byte addresses (model-free composition)
     for c in cells:
         for a, t in aliases(m, c):
-            if all_aliases or t == "alias:wrap24":
+            if alias_level >= 2 or t == "alias:wrap24" or (alias_level >= 1 and t in STATED_ALIASES):
                 add(a, t)
     for c in cells:
         if c >= INT:
